@@ -41,6 +41,8 @@ MEMBERS = [
      ("extra_info{s}", [])),
     ("    @property\n    def knob{s}(self) -> int:\n        '''Knob.'''\n        return getattr(self, '_knob', 0)\n\n    @knob{s}.setter\n    def knob{s}(self, value: int) -> None:\n        '''Sets the knob.'''\n        self._knob = value\n",
      ("knob{s}", [("value", "optpos")])),
+    ("    LIMIT{s} = 5\n", "attr"),
+    ("    kind_of_pool{s} = 'generated'\n", "attr"),
     ("    def _hidden{s}(self, x: int) -> int:\n        return x\n", None),
     ("    @property\n    def _secret{s}(self) -> int:\n        return 1\n", None),
     ("    @staticmethod\n    def scale{s}(factor: int, offset: int = 0) -> int:\n        '''Scales.'''\n        return factor * 2 + offset\n",
@@ -91,6 +93,8 @@ def build_class(case: dict):
     for i in case["members"]:
         tmpl, entry = MEMBERS[i]
         src += tmpl.format(s=s) + "\n"
+        if entry == "attr":
+            continue      # a plain class attribute: no command, and no effect on the other commands
         if entry is not None:
             table[entry[0].format(s=s)] = entry[1]
         else:
@@ -120,7 +124,7 @@ class C16Engine(Engine):
             "subclass, or width < 40 or > 200. Distinct = case hash.")
     assumptions = ["the session is driven in-process through a real asyncio.StreamReader and a recording writer (vt/ctl/harness.py)",
                    "API table written from the documentation, independent of inspect.getmembers"]
-    bounds = {"widths": "1..1000", "generated members": "<=4 of 13 templates", "subclass depth": "<=2"}
+    bounds = {"widths": "1..1000", "generated members": "<=4 of 15 templates", "subclass depth": "<=2"}
 
     def strategies(self, tier: str):
         return [("default", st.binary(min_size=NB, max_size=NB).map(decode), 1200 if tier == "quick" else 30000)]
